@@ -35,16 +35,21 @@ CLASS_OF = {'P': 'Point', 'seg2': 'Line', 'seg3': 'QuadraticBezier', 'seg4': 'Cu
             'M': 'AffineTransformation', 'BB': 'BoundingBox'}
 TY_OF_CLASS = {v: k for k, v in CLASS_OF.items()}
 PFX = {'Point': 'Point', 'Line': 'Line', 'QuadraticBezier': 'Quad', 'CubicBezier': 'Cubic',
-       'AffineTransformation': 'Affine', 'BoundingBox': 'BBox'}
+       'AffineTransformation': 'Affine', 'BoundingBox': 'BBox', 'CurveFit': 'CurveFit'}
 FILE_OF = {'Point': 'Point', 'Line': 'Line', 'QuadraticBezier': 'Quad', 'CubicBezier': 'Cubic',
-           'AffineTransformation': 'Affine', 'BoundingBox': 'BBox', 'utils': 'Utils', 'curvedistance': 'CurveDist'}
-FILE_ORDER = ['Utils', 'Point', 'Affine', 'BBox', 'Line', 'Quad', 'Cubic', 'CurveDist']
+           'AffineTransformation': 'Affine', 'BoundingBox': 'BBox', 'utils': 'Utils', 'curvedistance': 'CurveDist',
+           'geometricshapes': 'Shapes', 'curvefitter': 'Fit', 'CurveFit': 'Fit'}
+FILE_ORDER = ['Utils', 'Point', 'Affine', 'BBox', 'Line', 'Quad', 'Cubic', 'Shapes', 'Fit', 'CurveDist']
+# leaves of the import graph: no other generated file imports them (so adding one leaves the text of the others unchanged)
+LEAF_FILES = {'Shapes', 'Fit'}
+# modules whose module-level constants are emitted as named definitions (elsewhere they are inlined at the use)
+NAMED_GLOBAL_MODULES = {'path/geometricshapes.py'}
 MODULE_OF_CLASS = {'Point': 'point.py', 'Line': 'line.py', 'QuadraticBezier': 'quadraticbezier.py',
                    'CubicBezier': 'cubicbezier.py', 'Segment': 'segment.py',
                    'AffineTransformation': 'affinetransformation.py', 'BoundingBox': 'boundingbox.py',
                    'ArcLengthMixin': 'utils/arclengthmixin.py', 'IntersectionsMixin': 'utils/intersectionsmixin.py',
-                   'SampleMixin': 'utils/samplemixin.py'}
-MRO = {'Point': ['Point'], 'AffineTransformation': ['AffineTransformation'], 'BoundingBox': ['BoundingBox'],
+                   'SampleMixin': 'utils/samplemixin.py', 'CurveFit': 'utils/curvefitter.py'}
+MRO = {'Point': ['Point'], 'AffineTransformation': ['AffineTransformation'], 'BoundingBox': ['BoundingBox'], 'CurveFit': ['CurveFit'],
        'Line': ['Line', 'Segment', 'IntersectionsMixin', 'SampleMixin'],
        'QuadraticBezier': ['QuadraticBezier', 'ArcLengthMixin', 'Segment', 'IntersectionsMixin', 'SampleMixin'],
        'CubicBezier': ['CubicBezier', 'ArcLengthMixin', 'Segment', 'IntersectionsMixin', 'SampleMixin']}
@@ -111,6 +116,20 @@ def find_modfun(path, name):
     raise KeyError((path, name))
 
 
+def modkey_of(path):
+    return os.path.basename(os.path.dirname(path)) if path.endswith('__init__.py') else os.path.basename(path)[:-3]
+
+
+def imports_name(path, name, frm):
+    """does module `path` contain `from <frm> import <name>` (unaliased) at top level?"""
+    src, tree = module(path)
+    for n in tree.body:
+        if isinstance(n, ast.ImportFrom) and n.module == frm:
+            for a in n.names:
+                if a.name == name and a.asname is None: return True
+    return False
+
+
 def decorators(fd):
     out = set()
     for d in fd.decorator_list:
@@ -125,7 +144,17 @@ def fingerprint(node):
 # mutators: methods whose effect is an assignment to self; translated as functions returning the new self
 MUTATORS = {('AffineTransformation', n) for n in
             ('apply', 'apply_backwards', 'translate', 'scale', 'reflect', 'rotate', 'invert')} | \
-           {('Point', 'rotate'), ('Point', 'transform')}
+           {('Point', 'rotate'), ('Point', 'transform')} | {('BoundingBox', 'extend')} | \
+           {(c, 'round') for c in ('Line', 'QuadraticBezier', 'CubicBezier')}
+# mutators whose receiver may be a BoundingBox with unset corners.  `BoundingBox()` sets bl = tr = None; the receiver is an
+# `option (bbox T)`, None standing for "both corners None".  A state with exactly one corner set has no representation: a body
+# that ends in (or joins on) such a state is Untranslatable.
+OPT_SELF = {('BoundingBox', 'extend')}
+# 'A' in a signature: the definition is specialised on the (translation-time) class of that argument, one of these
+ARG_CLASSES = {('BoundingBox', 'extend'): ('P', 'BB')}
+UNSET_BOX = {'bl': None, 'tr': None}
+# methods that return None and update one of their ARGUMENTS in place: translated as functions returning the new value of it
+MUTATED_PARAM = {('CurveFit', 'estimateBi'): 'bez'}
 
 # signature table: argument types of methods (self excluded).  Return types are inferred.
 SIG = {
@@ -139,7 +168,7 @@ SIG = {
     ('AffineTransformation', 'scaling'): ['S', ('O', 'S')], ('AffineTransformation', 'scale'): ['S', ('O', 'S')],
     ('AffineTransformation', 'rotation'): ['S'], ('AffineTransformation', 'rotate'): ['S'],
     ('BoundingBox', 'includes'): ['P'], ('BoundingBox', 'overlaps'): ['BB'], ('BoundingBox', 'translated'): ['P'],
-    ('BoundingBox', 'addMargin'): ['S'],
+    ('BoundingBox', 'addMargin'): ['S'], ('BoundingBox', 'extend'): ['A'],
     ('*seg', 'pointAtTime'): ['S'], ('*seg', 'splitAtTime'): ['S'], ('*seg', 'tangentAtTime'): ['S'],
     ('*seg', 'normalAtTime'): ['S'], ('*seg', 'curvatureAtTime'): ['S'], ('*seg', 'lengthAtTime'): ['S'],
     ('*seg', 'translated'): ['P'], ('*seg', 'rotated'): ['P', 'S'], ('*seg', 'scaled'): ['S'], ('*seg', 'transformed'): ['M'],
@@ -148,9 +177,13 @@ SIG = {
     ('*seg', '_line_line_intersections'): ['seg2'], ('*seg', '_curve_line_intersections_t'): ['seg2'],
     ('*seg', '_curve_line_intersections'): ['seg2'],
     ('*seg', 'findExtremes'): ['K'],
+    ('CurveFit', 'computeHook'): ['P', 'P', 'S', 'seg4', 'S'],
+    ('CurveFit', 'estimateBi'): ['seg4', ('L', 'P'), ('L', 'S')],
+    ('CurveFit', 'chordLengthParameterize'): [('L', 'P')],
 }
 CLASSMETHODS = {('Point', 'fromAngle'), ('AffineTransformation', 'translation'), ('AffineTransformation', 'scaling'),
-                ('AffineTransformation', 'reflection'), ('AffineTransformation', 'rotation')}
+                ('AffineTransformation', 'reflection'), ('AffineTransformation', 'rotation'),
+                ('CurveFit', 'computeHook'), ('CurveFit', 'estimateBi'), ('CurveFit', 'chordLengthParameterize')}
 
 
 def sig_of(cls, name, nargs):
@@ -255,6 +288,46 @@ class Translator:
         self.done[key] = (cname, ('L', ('L', 'S')), 'CurveDist')
         return self.done[key]
 
+    def global_def(self, fx, path, name, node):
+        """module-level constant `name = <expr>` of `path` as a named definition; translation-time structure stays inline"""
+        key = ('global', path, name)
+        if key in self.done:
+            cname, rty, file = self.done[key]
+            return Val(rty, f'({cname} O)')
+        if key in self.inprogress: raise Untranslatable(f'recursion through {key}')
+        self.inprogress.add(key)
+        sub = FunTx(self, path, None, fx.fd)
+        v = sub.expr(node.value, {})
+        self.inprogress.discard(key)
+        if v.ty in ('I', 'K', 'FL', 'TUP'): return v
+        modkey = modkey_of(path)
+        cname = f'{modkey}_{name}'
+        rty = self.rtype(v)
+        if rty != 'S':
+            # the constant is a mutable object shared by every call: it is a constant of the model only if the module can never
+            # update it -- every other occurrence of the name must be a direct operand of a binary operator (which builds a new object)
+            tree = module(path)[1]
+            operands = {id(o) for x in ast.walk(tree) if isinstance(x, ast.BinOp) for o in (x.left, x.right)}
+            for x in ast.walk(tree):
+                if isinstance(x, ast.Global) and name in x.names: raise Untranslatable(f'{path}: `global {name}`')
+                if isinstance(x, ast.Name) and x.id == name and x is not node.targets[0] and id(x) not in operands:
+                    raise Untranslatable(f'{path}:{x.lineno}: module constant {name} (a mutable object) is used other than as an operand')
+        self.fingerprints[f'{path}:.{name}'] = fingerprint(node)
+        self.out[FILE_OF[modkey]].append(f'(* {path}: module constant {name}, line {node.lineno} *)\n'
+                                        f'Definition {cname} {{T : Type}} (O : Ops T) : {coqty(rty)} :=\n  {self.text(v)}.\n')
+        self.done[key] = (cname, rty, FILE_OF[modkey])
+        return Val(rty, f'({cname} O)')
+
+    def global_target(self, path, name):
+        """a module constant as a translation target of its own (e.g. one only used as a default argument value)"""
+        for n in module(path)[1].body:
+            if isinstance(n, ast.Assign) and len(n.targets) == 1 and isinstance(n.targets[0], ast.Name) and n.targets[0].id == name:
+                fx = FunTx(self, path, None, ast.FunctionDef(name=f'<module constant {name}>', lineno=n.lineno))
+                v = self.global_def(fx, path, name, n)
+                if ('global', path, name) not in self.done: raise Untranslatable(f'{path}: constant {name} is translation-time structure')
+                return v
+        raise KeyError((path, name))
+
     def function(self, cls, name, consts=()):
         """translate method `name` for receiver class `cls` (or module function when cls startswith 'mod:')"""
         key = (cls, name, consts)
@@ -264,7 +337,7 @@ class Translator:
         if cls.startswith('mod:'):
             path = cls[4:]
             fd = find_modfun(path, name); defcls = None
-            modkey = os.path.basename(os.path.dirname(path)) if path.endswith('__init__.py') else os.path.basename(path)[:-3]
+            modkey = modkey_of(path)
             file = FILE_OF[modkey]
             cname = f'{modkey}_{name}'
             argtys = MODSIG[(path, name)]
@@ -274,10 +347,12 @@ class Translator:
             file = FILE_OF[cls]
             cname = f'{PFX[cls]}_{name}'
             argtys = sig_of(cls, name, len(fd.args.args) - 1)
-            selfty = TY_OF_CLASS[cls]
+            selfty = TY_OF_CLASS.get(cls, 'CLS')
+            if (cls, name) in OPT_SELF: selfty = ('O', selfty)
         self.fingerprints[f'{path}:{defcls or ""}.{name}'] = fingerprint(fd)
         params = [a.arg for a in fd.args.args]
         is_cm = (cls, name) in CLASSMETHODS
+        if is_cm != ('classmethod' in decorators(fd)): raise Untranslatable(f'{cls}.{name}: classmethod table and @classmethod decorator disagree')
         env = {}
         coqparams = []
         if selfty is not None:
@@ -296,20 +371,48 @@ class Translator:
         for pn, ty in zip(pnames, argtys):
             if ty == 'K':
                 env[pn] = Val('K', const=consts[ci]); suffix += f'_{consts[ci]}'; ci += 1
+            elif ty == 'A':
+                aty = consts[ci][1]; ci += 1
+                if aty not in ARG_CLASSES[(cls, name)]: raise Untranslatable(f'{cls}.{name}: no specialisation for argument class {aty!r}')
+                env[pn] = Val(aty, 'v_' + pn); suffix += '_' + PFX[CLASS_OF[aty]]
+                coqparams.append(f'(v_{pn} : {coqty(aty)})')
             else:
                 env[pn] = Val(ty, 'v_' + pn)
                 coqparams.append(f'(v_{pn} : {coqty(ty)})')
         cname += suffix
         fx = FunTx(self, path, cls if selfty else None, fd)
         mut = (cls, name) in MUTATORS
-        if mut:
+        if (cls, name) in MUTATED_PARAM:
+            mp = MUTATED_PARAM[(cls, name)]
+            if mp not in env: raise Untranslatable(f'{cls}.{name}: no parameter {mp}')
+            cont = lambda e: e[mp]
+            ret = lambda v, e: e[mp] if (v.ty == 'K' and v.const is None) else fx.fail('mutator returns a value')
+            fx.live_stack.append({mp})
+        elif mut:
             cont = lambda e: e[params[0]]
             ret = lambda v, e: e[params[0]] if (v.ty == 'K' and v.const is None) else fx.fail('mutator returns a value')
         else:
             cont = lambda e: Val('K', const=None)
             ret = lambda v, e: v
         if mut: fx.live_stack.append({params[0]})
-        body = fx.block(fd.body, env, cont, ret)
+        if (cls, name) in OPT_SELF:
+            me = params[0]
+            cont = lambda e: fx.as_optbox(e[me], fd)
+            ret = lambda v, e: fx.as_optbox(e[me], fd) if (v.ty == 'K' and v.const is None) else fx.fail('mutator returns a value')
+            def variant(selfval):
+                e = dict(env); e[me] = selfval
+                return fx.block(fd.body, e, cont, ret)
+            reads_corners = any(isinstance(x, ast.Attribute) and isinstance(x.value, ast.Name) and x.value.id == me and x.attr in UNSET_BOX
+                                for st in fd.body for x in ast.walk(st))
+            if reads_corners:
+                # the body looks at self.bl / self.tr: translate it once for each state of the receiver
+                bN = variant(Val('UBB', const=dict(UNSET_BOX)))
+                bS = variant(Val('BB', 'b_'))
+                body = Val(selfty, f'(match self_ with\n  | None =>\n  {self.text(bN)}\n  | Some b_ =>\n  {self.text(bS)}\n  end)')
+            else:
+                body = variant(Val(selfty, 'self_'))
+        else:
+            body = fx.block(fd.body, env, cont, ret)
         if body.ty == 'FL' and not body.items and (cls, name) in RET:
             body = Val(RET[(cls, name)], '[]')
         text = self.text(body)
@@ -371,6 +474,14 @@ def find_cdf_method(name):
 
 MODSIG = {
     ('utils/__init__.py', 'quadraticRoots'): ['S', 'S', 'S'],
+    # path/geometricshapes.py: origin=None is Optional[Point]; superness is a plain float (its default is the module constant
+    # CIRCULAR_SUPERNESS, emitted as geometricshapes_CIRCULAR_SUPERNESS and substituted at calls that omit the argument)
+    ('path/geometricshapes.py', 'Rectangle'): ['S', 'S', ('O', 'P')],
+    ('path/geometricshapes.py', 'Square'): ['S', ('O', 'P')],
+    ('path/geometricshapes.py', 'Ellipse'): ['S', 'S', ('O', 'P'), 'S'],
+    ('path/geometricshapes.py', 'Circle'): ['S', ('O', 'P'), 'S'],
+    ('utils/curvefitter.py', 'B0'): ['S'], ('utils/curvefitter.py', 'B1'): ['S'],
+    ('utils/curvefitter.py', 'B2'): ['S'], ('utils/curvefitter.py', 'B3'): ['S'],
 }
 
 
@@ -416,6 +527,7 @@ class FunTx:
             s, t = module(p)
             for n in t.body:
                 if isinstance(n, ast.Assign) and len(n.targets) == 1 and isinstance(n.targets[0], ast.Name) and n.targets[0].id == name:
+                    if p in NAMED_GLOBAL_MODULES: return self.tr.global_def(self, p, name, n)
                     sub = FunTx(self.tr, p, None, self.fd)
                     return sub.expr(n.value, {})
         return None
@@ -436,6 +548,8 @@ class FunTx:
             if g is not None: return g
             if n.id in ('Point', 'Line', 'QuadraticBezier', 'CubicBezier', 'AffineTransformation'):
                 return Val('K', const=('class', n.id))
+            if n.id == 'BezierPath' and imports_name(self.path, 'BezierPath', 'beziers.path'):
+                return Val('K', const=('class', 'BezierPath'))
             self.fail(f'unbound name {n.id}', n)
         if isinstance(n, ast.UnaryOp):
             a = self.expr(n.operand, env)
@@ -511,8 +625,18 @@ class FunTx:
                 t = f'(match {v.tx} with None => false | Some _ => true end)'
             return Val('B', f'(negb {t})') if negate else Val('B', t)
         if v.ty == 'M' or v.ty == 'P' or v.ty in SEGN:
+            self.always_truthy(v.ty, n)
             return Val('K', const=not True if negate else True)
         self.fail(f'truth value of {v.ty!r}', n)
+
+    def always_truthy(self, ty, n):
+        """an instance is truthy unless its class defines __bool__ or __len__ (Segment.__len__ is the number of points, never 0)"""
+        cls = CLASS_OF[ty]
+        for m in ('__bool__', '__len__'):
+            try: find_def(cls, m)
+            except KeyError: continue
+            if ty in SEGN and m == '__len__': continue
+            self.fail(f'{cls} defines {m}: the truth value of an instance is not constant', n)
 
     def binop(self, op, a, b, n):
         tr = self.tr
@@ -635,6 +759,8 @@ class FunTx:
         if v.ty == 'BB':
             if a in ('bl', 'tr'): return Val('P', f'({a} {v.tx})')
             return self.property_or_method(v, a, n)
+        if v.ty == 'UBB' and a in UNSET_BOX:
+            return v.const[a] if v.const[a] is not None else Val('K', const=None)
         if v.ty == 'IX':
             if a == 't1': return Val('S', f'(fst (fst {v.tx}))')
             if a == 'point': return Val('P', f'(snd (fst {v.tx}))')
@@ -726,8 +852,12 @@ class FunTx:
         t = self.tr.text(a)
         return t
 
-    def bindargs(self, fd, args, kwargs, n, skip_self):
-        """positional+keyword+defaults -> list of Val in parameter order (self excluded)"""
+    def bindargs(self, fd, args, kwargs, n, skip_self, defpath=None):
+        """positional+keyword+defaults -> list of Val in parameter order (self excluded);
+        with defpath, default expressions are evaluated in the namespace of that module (where Python evaluated them)"""
+        dfx = self if defpath is None or defpath == self.path else FunTx(self.tr, defpath, None, fd)
+        if len(args) > len([a.arg for a in fd.args.args][1 if skip_self else 0:]) and defpath is not None: self.fail('too many positional arguments', n)
+        if defpath is not None and (set(kwargs) - {a.arg for a in fd.args.args}): self.fail('unknown keyword argument', n)
         params = [a.arg for a in fd.args.args][1 if skip_self else 0:]
         defaults = fd.args.defaults
         dmap = {}
@@ -737,7 +867,7 @@ class FunTx:
         for i, p in enumerate(params):
             if i < len(args): out.append(args[i])
             elif p in kwargs: out.append(kwargs[p])
-            elif p in dmap: out.append(self.expr(dmap[p], {}))
+            elif p in dmap: out.append(dfx.expr(dmap[p], {}))
             else: self.fail(f'missing argument {p}', n)
         return out
 
@@ -749,6 +879,9 @@ class FunTx:
             if ty == 'K':
                 if v.ty != 'K': self.fail(f'argument of {cls}.{name} must be constant', n)
                 consts.append(v.const)
+            elif ty == 'A':
+                if not (isinstance(v.ty, str) and v.ty in ARG_CLASSES[(cls, name)]): self.fail(f'argument class {v.ty!r} of {cls}.{name}', n)
+                consts.append(('ty', v.ty)); out.append(v)
             elif ty == 'S':
                 out.append(Val('S', self.tr.S(v)))
             elif ty == 'B':
@@ -765,6 +898,13 @@ class FunTx:
     def call(self, n, env):
         tr = self.tr
         f = n.func
+        if isinstance(f, ast.Name) and f.id == 'isinstance' and f.id not in env and f.id not in self.localfuns:
+            # decided at translation time from the class of the value; the classes of the table are unrelated by inheritance
+            if len(n.args) != 2 or n.keywords or not isinstance(n.args[1], ast.Name) or n.args[1].id not in TY_OF_CLASS or n.args[1].id in env:
+                self.fail('isinstance form', n)
+            v = self.expr(n.args[0], env)
+            if isinstance(v.ty, str) and v.ty in CLASS_OF: return Val('K', const=(CLASS_OF[v.ty] == n.args[1].id))
+            self.fail(f'isinstance of {v.ty!r}', n)
         args = [self.expr(a, env) if not isinstance(a, ast.Starred) else Val('STAR', items=self.expr(a.value, env)) for a in n.args]
         kwargs = {k.arg: self.expr(k.value, env) for k in n.keywords}
         # ---- builtins by name
@@ -820,6 +960,9 @@ class FunTx:
             if name == 'zip':
                 if all(a.ty == 'FL' for a in args):
                     return Val('FL', items=[Val('TUP', items=list(t)) for t in zip(*[a.items for a in args])])
+                if len(args) == 2 and not kwargs and all(isinstance(a.ty, tuple) and a.ty[0] == 'L' and a.ty[1] != '?' for a in args):
+                    # zip of two lists stops at the shorter one, as List.combine does
+                    return Val(('L', ('T', (args[0].ty[1], args[1].ty[1]))), f'(combine {args[0].tx} {args[1].tx})')
                 self.fail('dynamic zip', n)
             if name in TY_OF_CLASS or name == 'klass' or name == 'Intersection':
                 return self.construct(name, args, n)
@@ -853,6 +996,14 @@ class FunTx:
             if kind == 'classattr':
                 _, cls, a = fv.const
                 if a == 'fromRepr': self.fail('fromRepr', n)
+                if cls == 'BezierPath':
+                    # a path built by BezierPath.fromSegments(array) is represented by the list of its segments
+                    # (fromSegments stores the array; asSegments() hands the same list back)
+                    if a != 'fromSegments' or len(args) != 1 or kwargs: self.fail(f'BezierPath.{a}', n)
+                    l = args[0]
+                    lt = tr.rtype(l) if l.ty != 'STAR' else None
+                    if not (isinstance(lt, tuple) and lt[0] == 'L' and lt[1] in SEGN): self.fail(f'BezierPath.fromSegments of {lt!r}', n)
+                    return Val(lt, tr.text(l))
                 path, fd, defcls = find_def(cls, a)
                 vals = self.bindargs(fd, args, kwargs, n, skip_self=True)
                 vals, consts = self.coerce_args(cls, a, vals, n)
@@ -890,11 +1041,25 @@ class FunTx:
 
     def call_modfun(self, path, name, args, kwargs, n):
         fd = find_modfun(path, name)
-        vals = self.bindargs(fd, args, kwargs, n, skip_self=False)
+        vals = self.bindargs(fd, args, kwargs, n, skip_self=False, defpath=path)
         sig = MODSIG[(path, name)]
-        vals = [Val('S', self.tr.S(v)) if t == 'S' else v for v, t in zip(vals, sig)]
+        if len(sig) != len(vals): self.fail(f'{name}: signature table has {len(sig)} args, call binds {len(vals)}', n)
+        vals = [self.coerce_to(v, t, name, n) for v, t in zip(vals, sig)]
         cname, rty, file = self.tr.function('mod:' + path, name)
         return Val(rty, f'({cname} O {" ".join(self.tr.text(v) for v in vals)})')
+
+    def coerce_to(self, v, t, what, n):
+        """argument of a module function against its declared type"""
+        tr = self.tr
+        if t == 'S': return Val('S', tr.S(v))
+        if isinstance(t, tuple) and t[0] == 'O':
+            if v.ty == 'K' and v.const is None: return Val(t, 'None')
+            vt = tr.rtype(v)
+            if vt == t: return Val(t, tr.text(v))
+            if vt == t[1] or (t[1] == 'S' and v.ty == 'I'): return Val(t, f'(Some {tr.S(v) if t[1] == "S" else tr.text(v)})')
+            self.fail(f'argument type {vt!r} where {t!r} expected in {what}', n)
+        if tr.rtype(v) != t: self.fail(f'argument type {tr.rtype(v)!r} where {t!r} expected in {what}', n)
+        return v
 
     def construct(self, name, args, n):
         tr = self.tr
@@ -921,6 +1086,9 @@ class FunTx:
                 es = [tr.S(e) for r in m.items for e in r.items]
                 return Val('M', f'(M3 {" ".join(es)})')
             self.fail('AffineTransformation constructor argument', n)
+        if name == 'BoundingBox':
+            if flat: self.fail('BoundingBox constructor arguments', n)
+            return Val('UBB', const=dict(UNSET_BOX))
         if name == 'Intersection':
             seg1, t1, seg2, t2 = flat
             pnt = self.callfun(CLASS_OF[seg1.ty], 'pointAtTime', [seg1, Val('S', tr.S(t1))], n)
@@ -996,7 +1164,7 @@ class FunTx:
         """emit `let name := v in <k env'>` unless v is translation-time structure or atomic"""
         tr = self.tr
         e2 = dict(env)
-        if v.ty in ('I', 'K', 'FL', 'TUP', 'LEN') or tr.atomic(v):
+        if v.ty in ('I', 'K', 'FL', 'TUP', 'LEN', 'UBB') or tr.atomic(v):
             if v.ty in ('FL', 'TUP'):
                 # bind non-atomic components so later uses do not duplicate them
                 lets, items = [], []
@@ -1044,6 +1212,12 @@ class FunTx:
             v = self.expr(s.value, env)
             return self.assign(t, v, env, k, s)
         if isinstance(s, ast.AugAssign):
+            if isinstance(s.target, ast.Attribute) and isinstance(s.target.value, ast.Name) and s.target.value.id in env \
+                    and env[s.target.value.id].ty == 'P' and s.target.attr in ('x', 'y'):
+                # p.x += e  is  p.x = p.x + e  (the attribute of a float is a float: no in-place operator involved)
+                cur = self.expr(s.target, env)
+                v = self.binop(type(s.op).__name__, cur, self.expr(s.value, env), s)
+                return self.assign(s.target, v, env, k, s)
             if not isinstance(s.target, ast.Name): self.fail('augmented assignment to non-name', s)
             cur = self.expr(s.target, env)
             v = self.binop(type(s.op).__name__, cur, self.expr(s.value, env), s)
@@ -1096,7 +1270,72 @@ class FunTx:
             if recv.ty == 'BB' and t.attr in ('bl', 'tr') and v.ty == 'P':
                 nv = Val('BB', f'(BB {v.tx} (tr {recv.tx}))' if t.attr == 'bl' else f'(BB (bl {recv.tx}) {v.tx})')
                 return self.bind(t.value.id, nv, env, k)
+            if recv.ty in SEGN and t.attr == 'points':
+                # self.points = [...]: the new list must have exactly the points of this class of segment
+                if v.ty != 'FL' or len(v.items) != SEGN[recv.ty] or any(p.ty != 'P' for p in v.items): self.fail('assignment to .points', s)
+                return self.bind(t.value.id, Val(recv.ty, f'({SEGCON[SEGN[recv.ty]]} {" ".join(p.tx for p in v.items)})'), env, k)
+            if recv.ty == 'UBB' and t.attr in UNSET_BOX and v.ty == 'P':
+                fields = dict(recv.const)
+                if all(fields[c] is not None for c in UNSET_BOX if c != t.attr):
+                    fields[t.attr] = v      # now both corners are set: an ordinary box
+                    return self.bind(t.value.id, Val('BB', f'(BB {fields["bl"].tx} {fields["tr"].tx})'), env, k)
+                if tr.atomic(v):
+                    fields[t.attr] = v
+                    e2 = dict(env); e2[t.value.id] = Val('UBB', const=fields)
+                    return k(e2)
+                nm = self.fresh(f'v_{t.value.id}_{t.attr}')
+                fields[t.attr] = Val('P', nm)
+                e2 = dict(env); e2[t.value.id] = Val('UBB', const=fields)
+                r = k(e2)
+                return self.retext(r, f'let {nm} := {v.tx} in\n  {tr.text(r)}')
+        if isinstance(t, ast.Subscript) and isinstance(t.value, ast.Name) and t.value.id in env and env[t.value.id].ty in SEGN \
+                and not isinstance(t.slice, ast.Slice):
+            # seg[k] = point  (Segment.__setitem__: self.points[key] = item)
+            recv = env[t.value.id]
+            i = self.expr(t.slice, env)
+            if i.ty != 'I' or v.ty != 'P': self.fail('segment item assignment', s)
+            kk = i.const if i.const >= 0 else i.const + SEGN[recv.ty]
+            if not 0 <= kk < SEGN[recv.ty]: self.fail('segment index out of range', s)
+            pts = [f'({pj} {recv.tx})' for pj in SEGPROJ[recv.ty]]
+            pts[kk] = v.tx
+            return self.bind(t.value.id, Val(recv.ty, f'({SEGCON[SEGN[recv.ty]]} {" ".join(pts)})'), env, k)
+        if isinstance(t, ast.Attribute) and isinstance(t.value, ast.Attribute) and isinstance(t.value.value, ast.Name) \
+                and t.value.value.id in env:
+            # self.bl.x = v : in-place update of a coordinate of a corner
+            nm = t.value.value.id
+            recv = env[nm]
+            if recv.ty == 'BB' and t.value.attr in ('bl', 'tr') and t.attr in ('x', 'y'):
+                self.check_corner_ownership(s)
+                c = t.value.attr
+                np = f'(P {tr.S(v)} (py ({c} {recv.tx})))' if t.attr == 'x' else f'(P (px ({c} {recv.tx})) {tr.S(v)})'
+                nv = Val('BB', f'(BB {np} (tr {recv.tx}))' if c == 'bl' else f'(BB (bl {recv.tx}) {np})')
+                return self.bind(nm, nv, env, k)
         self.fail('assignment target', s)
+
+    def check_corner_ownership(self, s):
+        """`box.bl.x = v` updates a Point in place.  The record model is only right when that Point is referenced from nowhere
+        else (not from the other corner, not from an argument): the corners of a box received as a value are its own by the
+        representation invariant, and every corner ASSIGNED in this function must be a fresh object -- `<expr>.clone()` or `Point(..)`."""
+        for x in ast.walk(self.fd):
+            if isinstance(x, (ast.Assign, ast.AugAssign, ast.AnnAssign)):
+                tg = x.targets if isinstance(x, ast.Assign) else [x.target]
+                for t in tg:
+                    for y in ast.walk(t):
+                        if isinstance(y, ast.Attribute) and y.attr in UNSET_BOX and y is t:
+                            val = x.value
+                            fresh = isinstance(x, ast.Assign) and isinstance(val, ast.Call) and not val.keywords and (
+                                (isinstance(val.func, ast.Attribute) and val.func.attr == 'clone' and not val.args) or
+                                (isinstance(val.func, ast.Name) and val.func.id == 'Point'))
+                            if not fresh: self.fail('in-place update of a corner that may be shared with another object', s)
+
+    def as_optbox(self, v, node=None):
+        """a BoundingBox value as `option (bbox T)`"""
+        if v.ty == ('O', 'BB'): return v
+        if v.ty == 'BB': return Val(('O', 'BB'), f'(Some {v.tx})')
+        if v.ty == 'UBB':
+            if all(f is None for f in v.const.values()): return Val(('O', 'BB'), 'None')
+            self.fail('BoundingBox with exactly one corner set has no representation', node)
+        self.fail(f'{v.ty!r} where a BoundingBox is expected', node)
 
     def stmt_call(self, c, env, k, s):
         tr = self.tr
@@ -1121,7 +1360,14 @@ class FunTx:
                 if f.attr == 'sort':
                     if lty == 'FL': recv = Val(tr.rtype(recv), tr.text(recv))
                     return self.bind(nm, Val(recv.ty, f'(sort_ O {recv.tx})'), env, k)
-            if recv.ty in CLASS_OF and (CLASS_OF[recv.ty], f.attr) in MUTATORS:
+            if ('BoundingBox', f.attr) in OPT_SELF and (recv.ty in ('BB', 'UBB') or recv.ty == ('O', 'BB')):
+                cls = 'BoundingBox'
+                path, fd, defcls = find_def(cls, f.attr)
+                vals = self.bindargs(fd, args, kwargs, s, skip_self=True)
+                vals, consts = self.coerce_args(cls, f.attr, vals, s)
+                nv = self.callfun(cls, f.attr, [self.as_optbox(recv, s)] + vals, s, consts)
+                return self.bind(nm, nv, env, k)
+            if isinstance(recv.ty, str) and recv.ty in CLASS_OF and (CLASS_OF[recv.ty], f.attr) in MUTATORS:
                 cls = CLASS_OF[recv.ty]
                 path, fd, defcls = find_def(cls, f.attr)
                 vals = self.bindargs(fd, args, kwargs, s, skip_self=True)
@@ -1159,7 +1405,9 @@ class FunTx:
             elif mode == 'notnone': cS = Val('K', const=True)
             elif inner == 'S':
                 cS = Val('B', f'(eqb O {z} (ofZ O 0))') if mode == 'falsy' else Val('B', f'(neqb O {z} (ofZ O 0))')
-            else: cS = Val('K', const=(mode == 'truthy'))
+            else:
+                if mode in ('truthy', 'falsy') and isinstance(inner, str) and inner in CLASS_OF: self.always_truthy(inner, s)
+                cS = Val('K', const=(mode == 'truthy'))
             rN = self.if_with(cN, s, rest, envN, cont, ret)
             rS = self.if_with(cS, s, rest, envS, cont, ret)
             x, y, ty = self.unify(rN, rS, s)
@@ -1204,6 +1452,7 @@ class FunTx:
     def need(self, env, v, s):
         if v not in env: self.fail(f'variable {v} not defined on every path', s)
         val = env[v]
+        if val.ty == 'UBB': return self.as_optbox(val, s)
         if val.ty == 'FL': return Val(self.tr.rtype(val) if val.items else 'FL', self.tr.text(val) if val.items else None, items=None if val.items else [])
         return val
 
@@ -1220,8 +1469,59 @@ class FunTx:
         if len(names) == 1: return tr.text(a), tr.text(b), ('T', (ta,)) if not (isinstance(ta, tuple) and ta[0] == 'T') else ta
         return tr.text(a), tr.text(b), ta
 
+    def pairs_loop(self, s, env):
+        """recognise   for i in range(1, len(X)): <body reading i only as X[i] and X[i - 1]>   over a dynamic list X.
+        The iterations see exactly the pairs (X[i], X[i-1]), i = 1 .. len(X)-1, i.e. the elements of combine (tl X) X, and no
+        index can be out of range.  Returns (X, name for X[i], name for X[i-1], rewritten loop) or None."""
+        it = s.iter
+        if not (isinstance(it, ast.Call) and isinstance(it.func, ast.Name) and it.func.id == 'range' and not it.keywords and len(it.args) == 2
+                and isinstance(it.args[0], ast.Constant) and it.args[0].value == 1 and type(it.args[0].value) is int
+                and isinstance(it.args[1], ast.Call) and isinstance(it.args[1].func, ast.Name) and it.args[1].func.id == 'len'
+                and not it.args[1].keywords and len(it.args[1].args) == 1 and isinstance(it.args[1].args[0], ast.Name)
+                and isinstance(s.target, ast.Name)):
+            return None
+        if 'range' in env or 'len' in env or 'range' in self.localfuns or 'len' in self.localfuns: return None
+        X, i = it.args[1].args[0].id, s.target.id
+        if X not in env or not (isinstance(env[X].ty, tuple) and env[X].ty[0] == 'L' and env[X].ty[1] != '?') or X == i: return None
+        cur, prev = f'{X}_at_{i}', f'{X}_at_{i}_minus_1'
+        for x in ast.walk(self.fd):
+            if isinstance(x, ast.Name) and x.id in (cur, prev): return None
+        if cur in env or prev in env: return None
+        if X in self.assigned(s.body, env) or i in self.assigned(s.body, env): return None
+        ok = [True]
+        def is_i(e): return isinstance(e, ast.Name) and e.id == i
+        class Rw(ast.NodeTransformer):
+            def visit_Subscript(self, node):
+                if isinstance(node.value, ast.Name) and node.value.id == X and isinstance(node.ctx, ast.Load):
+                    if is_i(node.slice): return ast.copy_location(ast.Name(id=cur, ctx=ast.Load()), node)
+                    sl = node.slice
+                    if isinstance(sl, ast.BinOp) and isinstance(sl.op, ast.Sub) and is_i(sl.left) and isinstance(sl.right, ast.Constant) \
+                            and type(sl.right.value) is int and sl.right.value == 1:
+                        return ast.copy_location(ast.Name(id=prev, ctx=ast.Load()), node)
+                return self.generic_visit(node)
+            def visit_Name(self, node):
+                if node.id == i: ok[0] = False      # any other use of the index
+                return node
+        import copy
+        body = [Rw().visit(copy.deepcopy(b)) for b in s.body]
+        if not ok[0]: return None
+        s2 = ast.For(target=s.target, iter=s.iter, body=body, orelse=s.orelse)
+        ast.copy_location(s2, s); ast.fix_missing_locations(s2)
+        return X, cur, prev, s2
+
     def stmt_for(self, s, rest, env, cont, ret):
         tr = self.tr
+        pl = self.pairs_loop(s, env)
+        if pl is not None:
+            X, cur, prev, s2 = pl
+            if s.orelse: self.fail('for-else', s)
+            if self.has_return(s2.body): self.fail('return inside a loop over consecutive pairs', s)
+            if s.target.id in self.live_after(rest): self.fail(f'loop index {s.target.id} used after the loop', s)
+            t = env[X].ty[1]
+            e1 = dict(env); e1[cur] = Val(t, 'v_' + cur); e1[prev] = Val(t, 'v_' + prev)
+            e1.pop(s.target.id, None)
+            itv = Val(('L', ('T', (t, t))), f'(combine (tl {env[X].tx}) {env[X].tx})')
+            return self.fold_loop(s2, rest, env, e1, [cur, prev], f"'(v_{cur}, v_{prev})", itv, cont, ret)
         it = self.expr(s.iter, env)
         if s.orelse: self.fail('for-else', s)
         if it.ty == 'FL':
@@ -1238,6 +1538,19 @@ class FunTx:
                     return go(i + 1, e2)
                 return self.assign(s.target, items[i], e, lambda e1: self.block(s.body, e1, after, ret), s)
             return self.with_live(self.loads(s.body) | self.loads(rest), lambda: go(0, env))
+        if isinstance(it.ty, tuple) and it.ty[0] == 'L' and isinstance(s.target, ast.Tuple):
+            # for a, b in <list of pairs>: a fold whose step function takes the pair apart
+            et = it.ty[1]
+            tn = [e.id for e in s.target.elts if isinstance(e, ast.Name)]
+            if len(tn) != len(s.target.elts) or len(set(tn)) != len(tn) or not (isinstance(et, tuple) and et[0] == 'T' and len(et[1]) == len(tn)):
+                self.fail('dynamic for target', s)
+            if self.has_return(s.body): self.fail('return inside a loop over pairs', s)
+            e1 = dict(env)
+            xpat = None
+            for nm, ty in zip(tn, et[1]):
+                e1[nm] = Val(ty, 'v_' + nm)
+                xpat = 'v_' + nm if xpat is None else f'({xpat}, v_{nm})'
+            return self.fold_loop(s, rest, env, e1, tn, "'" + xpat, it, cont, ret)
         if isinstance(it.ty, tuple) and it.ty[0] == 'L':
             if not isinstance(s.target, ast.Name): self.fail('dynamic for target', s)
             x = s.target.id
@@ -1275,6 +1588,41 @@ class FunTx:
             olp = "'" + opat if len(names) > 1 else opat
             return self.retext(r, f"let {olp} := fold_left (fun {lp} v_{x} => {bt}) {it.tx} {init} in\n  {tr.text(r)}")
         self.fail(f'for over {it.ty!r}', s)
+
+    def fold_loop(self, s, rest, env, e1, targets, xpat, it, cont, ret):
+        """`for <targets> in <dynamic list>` without return, as fold_left over the variables assigned in the body.  A variable
+        that does not exist before the loop is local to one iteration (it must not be read after the loop)."""
+        tr = self.tr
+        names = [v for v in self.assigned(s.body, env) if v not in targets]
+        after = self.live_after(rest)
+        for v in names:
+            if v not in env and v in after: self.fail(f'variable {v} first assigned inside a loop and used after it', s)
+        for v in targets:
+            if v in after: self.fail(f'loop variable {v} used after the loop', s)
+        names = [v for v in names if v in env]
+        if not names: return self.block(rest, env, cont, ret)
+        accs = [self.need(env, v, s) for v in names]
+        tys = [tr.rtype(a) for a in accs]
+        inner = {nm: self.fresh('v_' + nm) for nm in names}
+        for nm, t in zip(names, tys): e1[nm] = Val(t, inner[nm])
+        body = self.with_live(names, lambda: self.block(s.body, e1, lambda e: Val('TUP', items=[self.need(e, v, s) for v in names]), lambda v, e: self.fail('return in fold', s)))
+        if body.ty == 'TUP':
+            for b, t in zip(body.items, tys):
+                if tmatch(tr.rtype(b), t) is None: self.fail(f'loop changes the type of an accumulator: {tr.rtype(b)!r} / {t!r}', s)
+        pat = None
+        for nm in names: pat = inner[nm] if pat is None else f'({pat}, {inner[nm]})'
+        init = tr.text(Val('TUP', items=accs)) if len(accs) > 1 else tr.text(accs[0])
+        bt = tr.text(body) if len(accs) > 1 or body.ty != 'TUP' else tr.text(body.items[0])
+        e2 = dict(env)
+        outer = {nm: self.fresh('v_' + nm) for nm in names}
+        opat = None
+        for nm, t in zip(names, tys):
+            e2[nm] = Val(t, outer[nm])
+            opat = outer[nm] if opat is None else f'({opat}, {outer[nm]})'
+        r = self.block(rest, e2, cont, ret)
+        lp = "'" + pat if len(names) > 1 else pat
+        olp = "'" + opat if len(names) > 1 else opat
+        return self.retext(r, f"let {olp} := fold_left (fun {lp} {xpat} => {bt}) {it.tx} {init} in\n  {tr.text(r)}")
 
     def optionise(self, body, s):
         """text of an option-valued body whose leaves are SOME(v) or None; returns (text, element type)"""
@@ -1352,6 +1700,10 @@ TARGETS = [
     ('AffineTransformation', 'rotate'), ('AffineTransformation', 'invert'),
     ('BoundingBox', 'includes'), ('BoundingBox', 'overlaps'), ('BoundingBox', 'area'),
 ]
+BOUNDS_TARGETS = [('BoundingBox', 'extend', (('ty', 'P'),)), ('BoundingBox', 'extend', (('ty', 'BB'),)),
+                  ('Line', 'bounds'), ('QuadraticBezier', 'bounds'), ('CubicBezier', 'bounds')]
+SHAPE_TARGETS = [('mod:path/geometricshapes.py', n) for n in ('Rectangle', 'Square', 'Ellipse', 'Circle')] + \
+                [('global:path/geometricshapes.py', 'CIRCULAR_SUPERNESS')]
 for _c in ('Line', 'QuadraticBezier', 'CubicBezier'):
     TARGETS += [(_c, m) for m in ('pointAtTime', 'splitAtTime', 'translated', 'rotated', 'scaled', 'transformed',
                                   'alignmentTransformation', 'aligned', 'reversed', 'tangentAtTime', 'normalAtTime',
@@ -1366,6 +1718,10 @@ TARGETS += [('QuadraticBezier', 'derivative'), ('CubicBezier', 'derivative'),
             ('QuadraticBezier', '_curve_line_intersections_t'), ('CubicBezier', '_curve_line_intersections_t'),
             ('QuadraticBezier', '_curve_line_intersections'), ('CubicBezier', '_curve_line_intersections'),
             ] + [('CDF', 'S', (a, b)) for a in (2, 3, 4) for b in (2, 3, 4)] + [('CDF', 'D', (a, b)) for a in (2, 3, 4) for b in (2, 3, 4)]
+SEGMENT_TARGETS = [(c, m) for c in ('Line', 'QuadraticBezier', 'CubicBezier') for m in ('clone', 'round')]
+FIT_TARGETS = [('mod:utils/curvefitter.py', b) for b in ('B0', 'B1', 'B2', 'B3')] + [('CurveFit', 'computeHook'), ('CurveFit', 'estimateBi'),
+                                                                                          ('CurveFit', 'chordLengthParameterize')]
+TARGETS += SHAPE_TARGETS + BOUNDS_TARGETS + SEGMENT_TARGETS + FIT_TARGETS
 
 
 def header(file, deps):
@@ -1385,6 +1741,7 @@ def generate(outdir, targets=None):
         try:
             if cls == 'CDF' and name == 'S': tr.cdf_S(*consts)
             elif cls == 'CDF' and name == 'D': tr.cdf_D(*consts)
+            elif cls.startswith('global:'): tr.global_target(cls[7:], name)
             else: tr.function(cls, name, consts)
         except Untranslatable as e:
             errors.append({'function': f'{cls}.{name}', 'error': str(e)})
@@ -1394,7 +1751,7 @@ def generate(outdir, targets=None):
             tr.inprogress.clear()
     texts = {}
     for i, f in enumerate(FILE_ORDER):
-        texts[f] = header(f, FILE_ORDER[:i]) + '\n'.join(tr.out[f])
+        texts[f] = header(f, [d for d in FILE_ORDER[:i] if d not in LEAF_FILES]) + '\n'.join(tr.out[f])
     os.makedirs(outdir, exist_ok=True)
     changed = []
     for f, t in texts.items():
